@@ -156,8 +156,9 @@ def _line_search(
     a, _, c, bracket_evals = _bracket_minimum(f_alpha, mid, mid + 0.1 * (alpha_max - mid))
 
     # Clamp bracket to valid range
-    a = max(a, alpha_min)
-    c = min(c, alpha_max)
+    # Keep both ends of the bracket inside the feasible step range (the bracket can run past it)
+    a = min(max(a, alpha_min), alpha_max)
+    c = max(min(c, alpha_max), alpha_min)
 
     # Golden section search
     alpha_opt, f_opt, search_evals = _golden_section_search(f_alpha, a, c)
